@@ -5,6 +5,7 @@ import ast
 
 from .. import AnalysisError
 from ..model import ClassInfo
+from ..rules import self_attrs_written
 from ..summary import contains, signature, summarize
 from ..template import instantiate
 
@@ -519,13 +520,55 @@ def _census(ctx, model):
                    "equality and hash come from the template" if not bad else
                    f"{n.name} overrides {bad} in its class body: the decorator "
                    "then replaces or contradicts them")
-        bad = sorted(own & {"__setattr__", "__delattr__"})
+        # an override that raises on every path only adds protection
+        init = c.members.get("__init__")
+        stored = sorted(set(n.field_names) | (
+            self_attrs_written(init.node)
+            if init is not None and init.kind == "func" else set()))
+        bad = sorted(k for k in own & {"__setattr__", "__delattr__"}
+                     if not _always_raises(c.members[k], stored))
         ctx.ob(f"S/census/{n.name}/no-setattr-override", not bad, c.loc(),
-               "no __setattr__/__delattr__ override" if not bad else
+               "no permissive __setattr__/__delattr__ override" if not bad else
                f"{n.name} overrides {bad}: frozenness can be bypassed",
                nontrivial=False)
+        # a class outside the dataclass machinery that stores state of its own
+        # must block rebinding itself
+        if not n.decorated and init is not None and init.kind == "func" and \
+                model.is_subclass(c, nt.expression) and \
+                self_attrs_written(init.node):
+            mine = sorted(self_attrs_written(init.node))
+            guards = {k: any(k in kk.members
+                             and _always_raises(kk.members[k], mine)
+                             for kk in model.mro(c) if isinstance(kk, ClassInfo))
+                      for k in ("__setattr__", "__delattr__")}
+            ok = all(guards.values())
+            ctx.ob(f"O/legacy/{n.name}/fields-frozen", ok, c.loc(),
+                   f"{n.name} (init-args protocol) raises on attribute "
+                   "rebinding/deletion" if ok else
+                   f"{n.name} stores its fields as plain instance attributes and "
+                   "nothing blocks rebinding them: obj.<field> = value succeeds "
+                   "and changes the object's equality class and hash")
         # (ordering dunders are C03's clause, not C01's: nothing is said here)
     ctx.floor("decorated node classes", n_dec, 40)
+    # user subclasses outside the dataclass machinery (pure init-args classes,
+    # or an undecorated subclass adding attributes to a decorated class: the
+    # frozen dataclass __setattr__ only guards the declared fields there) get
+    # protection only from the common base
+    E = nt.expression
+    if "__init_subclass__" in E.members or any(
+            k.arg == "metaclass" for k in E.node.keywords):
+        raise AnalysisError("Expression customises subclass creation: the rule "
+                            "on user subclasses' attributes cannot read that")
+    ok = all(k in E.members and _always_raises(E.members[k])
+             for k in ("__setattr__", "__delattr__"))
+    ctx.ob("O/legacy/user-subclasses/fields-frozen", ok, E.loc(),
+           "the common base blocks attribute rebinding" if ok else
+           "nothing blocks rebinding the attributes an undecorated (init-args "
+           "protocol) subclass stores on its instances: with class L(Expression) "
+           "storing self.val in __init__, 'L(1).val = 2' succeeds and leaves the "
+           "object unequal to both L(1) and L(2) with a stale cached hash; the "
+           "same holds for the extra attributes of an undecorated subclass of a "
+           "decorated class")
     # __post_init__ runs before a hash can exist
     for n in nodes:
         pi = n.cls.members.get("__post_init__")
@@ -557,6 +600,19 @@ def _census(ctx, model):
                        f"normalises its own field '{name}'" if ok else
                        f"{n.name}.__post_init__ writes '{name}', which is not one "
                        f"of its declared fields {n.field_names}")
+
+
+def _always_raises(mem, names=None) -> bool:
+    """the guard raises on every path -- for every attribute name in *names*
+    when given (decided by concretising the name parameter), else for any"""
+    if mem.kind != "func":
+        return False
+    if names and len(mem.node.args.args) >= 2:
+        p = mem.node.args.args[1].arg
+        return all(ps.term == "raise" for nm in names
+                   for ps in summarize(mem.node, plain=True,
+                                       assume={p: ("const", nm)}))
+    return all(ps.term == "raise" for ps in summarize(mem.node, plain=True))
 
 
 def _frozen(ctx, model):
@@ -669,8 +725,20 @@ def _who_may_write(ctx, model):
                             and call.args[1].value == "_hash_value"
                             and ast.unparse(call.func) in ("object.__setattr__",
                                                            "setattr"))
+                        # a legacy node class initialising itself past its
+                        # own raising __setattr__
+                        own_init = (
+                            name == "__init__" and tgt == "self" and is_node
+                            and c.key in node_keys
+                            and not nt.table[c.key].decorated
+                            and ast.unparse(call.func) == "object.__setattr__")
+                        # the delegating arm of a guard: which names it
+                        # lets through is judged by the census rule
+                        own_guard = (
+                            name in ("__setattr__", "__delattr__")
+                            and tgt == "self" and is_node)
                         ok = q in ALLOWED_SETATTR_FUNCS or own_post_init or \
-                            cache_only or (
+                            cache_only or own_init or own_guard or (
                                 not is_node and tgt == "self"
                                 and not model.is_subclass(c, mapper_base))
                         ctx.ob(f"O/setattr/{c.name}.{name}:{tgt}", ok,
